@@ -61,6 +61,7 @@ def plan(tier, seed, kf_ids):
                                "(a layout that cannot represent 1)" % al, al, unwind=6))
             if not any(j.name == "c18_mul0_" + tg for j in jobs):
                 jobs.append(mk("c18_mul0_" + tg, "mul", "%s, 0" % t, "Wrapping<%s>: * and *= equal the exact product mod 2^W" % al, al, unwind=6))
+    c.interleave(jobs)
     return {
         "feature": "c18",
         "jobs": jobs,
